@@ -168,7 +168,8 @@ RFails(r) ==
 
 \* ---- value types (C12) -----------------------------------------------------
 VARIABLES i, bad,
-          tdmin, tdmax    \* limits of the i64 duration type, computed once in Init
+          tdmin, tdmax,   \* limits of the i64 duration type, computed once in Init
+          dtmax           \* last representable millisecond timestamp, computed once in Init
 
 \* candidate c: [int |-> n] / [bits |-> b] integers (bool counts as its integer value),
 \* [flt |-> "finite"|"inf"|"nan"], [other |-> typename],
@@ -182,10 +183,14 @@ IntTypes == {"i8", "i16", "i32", "i64", "u8", "u16", "u32", "u64", "uvarint", "u
              "svarint", "svarlong"}
 
 \* timedelta.min = -999999999 days; i64Timedelta max = timedelta.max - 1 day
-TdMinMs == LET d == NatBits(999999999) RECURSIVE mul(_, _) mul(x, k) == IF k = 0 THEN x ELSE mul(Shl1(x), k - 1)
-           \* 86400000 = 2^26+2^24+2^21+2^18+2^17+2^14+2^12+2^11+2^10
-           IN BNeg(BAdd(BAdd(BAdd(BAdd(BAdd(BAdd(BAdd(BAdd(mul(d, 26), mul(d, 24)), mul(d, 21)), mul(d, 18)),
-                                         mul(d, 17)), mul(d, 14)), mul(d, 12)), mul(d, 11)), mul(d, 10)))
+RECURSIVE ShlN(_, _)
+ShlN(x, k) == IF k = 0 THEN x ELSE ShlN(Shl1(x), k - 1)
+\* 86400000 = 2^26+2^24+2^21+2^18+2^17+2^14+2^12+2^11+2^10
+DaysToMs(d) == BAdd(BAdd(BAdd(BAdd(BAdd(BAdd(BAdd(BAdd(ShlN(d, 26), ShlN(d, 24)), ShlN(d, 21)), ShlN(d, 18)),
+                                    ShlN(d, 17)), ShlN(d, 14)), ShlN(d, 12)), ShlN(d, 11)), ShlN(d, 10))
+TdMinMs == BNeg(DaysToMs(NatBits(999999999)))
+\* the last millisecond a reader can return: 9999-12-31T23:59:59.999 UTC (2932897 days after the epoch, minus 1 ms)
+DtMaxMs == BAdd(DaysToMs(NatBits(2932897)), IntBits(-1))
 
 Member(t, c) ==
   IF t \in IntTypes THEN
@@ -198,7 +203,9 @@ Member(t, c) ==
   ELSE IF t = "i64Timedelta" THEN
     K(c) = "td" /\ BLeq(tdmin, ValBits(c.td[1])) /\ BLeq(ValBits(c.td[1]), tdmax)
   ELSE IF t = "TZAware" THEN
-    K(c) = "dt" /\ c.dt[1] = 1 /\ c.dt[3] = 0 /\ Sign(ValBits(c.dt[2])) = 0
+    \* aware, whole milliseconds, not before the epoch (-1 is the wire null) and not after the last instant
+    \* a reader can return (members are accepted by the writer AND read back equal)
+    K(c) = "dt" /\ c.dt[1] = 1 /\ c.dt[3] = 0 /\ Sign(ValBits(c.dt[2])) = 0 /\ BLeq(ValBits(c.dt[2]), dtmax)
   ELSE IF t = "TZAwareMicros" THEN
     K(c) = "dt" /\ c.dt[1] = 1 /\ Sign(ValBits(c.dt[2])) = 0
   ELSE FALSE
@@ -211,7 +218,7 @@ TFails(r) ==
   \cup (IF m /\ r.rt \notin {"ok", "n/a"} THEN {"member_does_not_round_trip_through_writer_reader"} ELSE {})
 
 \* ---- the table walk --------------------------------------------------------
-Init == i = 1 /\ bad = 0 /\ tdmin = TdMinMs /\ tdmax = BAdd(BNeg(TdMinMs), IntBits(-1))
+Init == i = 1 /\ bad = 0 /\ tdmin = TdMinMs /\ tdmax = BAdd(BNeg(TdMinMs), IntBits(-1)) /\ dtmax = DtMaxMs
 Next ==
   /\ i <= N
   /\ LET r == Rows[i]
@@ -219,7 +226,7 @@ Next ==
      /\ IF f # {} THEN PrintT(ToJson([id |-> r.id, fails |-> f])) ELSE TRUE
      /\ bad' = bad + (IF f = {} THEN 0 ELSE 1)
   /\ i' = i + 1
-  /\ UNCHANGED <<tdmin, tdmax>>
-Spec == Init /\ [][Next]_<<i, bad, tdmin, tdmax>>
+  /\ UNCHANGED <<tdmin, tdmax, dtmax>>
+Spec == Init /\ [][Next]_<<i, bad, tdmin, tdmax, dtmax>>
 AllJudged == TLCGet("stats").diameter >= N
 =============================================================================
